@@ -702,30 +702,30 @@ def make_baseline(repo_bin=None):
 
 
 # ------------------------------------------------------------------------------------------------ known findings of this group
-# One rule per root cause: (property, key template, {placeholder: values}, proposed fix, what).  `python3 -m vlib.props.wire_count_common findings`
+# One rule per root cause: (property, key template, {placeholder: values}, proposed fix, what[, /repo commit that fixed it]).  `python3 -m vlib.props.wire_count_common findings`
 # rewrites the entries of group "count" in known_findings.json from these rules (the templates are expanded; a key is listed only if it
 # names a place where that root cause can show).  Every root cause was reproduced with a tiny program (proposed_fixes/*.md).
 P2 = ["bytes", "stream"]
 W2 = ["", "-word"]
 FINDING_RULES = [
     ("C09", "{f}/continue-restored-throws", dict(f=["varopt", "vunion"]), "C09-varopt-restored-m-region",
-     "var_opt_sketch::deserialize passes m = 1 for sampling-mode images: the restored sketch/gadget throws std::logic_error on the next heavy update"),
+     "var_opt_sketch::deserialize passes m = 1 for sampling-mode images: the restored sketch/gadget throws std::logic_error on the next heavy update", "dbbe534"),
     ("C09", "vunion/{k}", dict(k=["restored-bytes-api-throws", "restored-stream-api-throws", "ser-api-throws", "api-throws"]), "C09-varopt-restored-m-region",
-     "get_result() of a restored union throws (gadget restored with m = 1)"),
+     "get_result() of a restored union throws (gadget restored with m = 1)", "dbbe534"),
     ("C10", "vunion/baseline-restored-{p}-api-throws", dict(p=P2), "C09-varopt-restored-m-region",
-     "get_result() of a union restored from a baseline image throws (gadget restored with m = 1)"),
+     "get_result() of a union restored from a baseline image throws (gadget restored with m = 1)", "dbbe534"),
     ("C09", "vunion/get-result-ubsan:move.h:load-of-value-which-is", {}, "C09-varopt-gadget-marks-uninitialised",
-     "deserialize leaves marks_[h..] of a gadget uninitialised; get_result() of the restored union swaps them (UBSan invalid bool load)"),
+     "deserialize leaves marks_[h..] of a gadget uninitialised; get_result() of the restored union swaps them (UBSan invalid bool load)", "cb4d600"),
     ("{c}", "ebpps/ser-ubsan:serde.hpp:null-pointer-passed-as-argument", dict(c=["C09", "C10"]), "C09-serde-null-memcpy",
-     "serialize(bytes) of an EBPPS sample without full items: memcpy(ptr, nullptr, 0)"),
+     "serialize(bytes) of an EBPPS sample without full items: memcpy(ptr, nullptr, 0)", "993b0e0"),
     ("C09", "ebpps/state-items-ne-floor-c", {}, "C09-ebpps-items-vs-c",
-     "reachable EBPPS state (after merge) holds fewer full items than floor(c); its own image is rejected by the reader"),
+     "reachable EBPPS state (after merge) holds fewer full items than floor(c); its own image is rejected by the reader", "a254b8d"),
     ("C11", "countmin/bytes/prefix/asan@cells", {}, "C11-countmin-reader",
      "D8: ensure_minimum_memory omits the 16 preamble bytes; the last 16 prefix lengths read past the buffer"),
     ("C11", "countmin/stream/prefix/{o}@{fld}", dict(o=["accept", "accept-other-content"], fld=["pre", "cfg", "weight", "cells"]), "C11-countmin-reader",
      "deserialize(istream) never checks the stream state: truncated streams are accepted with indeterminate content"),
     ("C11", "countmin/{p}/corrupt{w}/asan@cfg", dict(p=P2, w=W2), "C11-countmin-reader",
-     "num_buckets * num_hashes limit check wraps in 32 bits: tiny table with a huge num_buckets, getters index out of bounds"),
+     "num_buckets * num_hashes limit check wrapped in 32 bits (repaired in /repo by b9ee092); still: the size check omits the preamble, so num_hashes + 1 passes and the cell loop reads past the buffer"),
     ("C11", "countmin/{p}/corrupt{w}/ubsan@cfg", dict(p=P2, w=W2), "C11-countmin-reader",
      "num_hashes = 0 accepted; get_estimate dereferences min_element of an empty vector"),
     ("C11", "countmin/{p}/corrupt{w}/alloc_cap@cfg", dict(p=P2, w=W2), "C11-countmin-reader + C11-config-dictated-allocation",
@@ -735,7 +735,7 @@ FINDING_RULES = [
      "stream reader uses lg sizes / num_items read from a truncated stream without checking the stream state"),
     ("C11", "fi/stream/corrupt{w}/{o}@{fld}", dict(w=W2, o=["alloc_cap", "timeout"], fld=["count", "pre"]), "C11-fi-reader + C11-serde-string-stream",
      "num_items (or a string length seen at a shifted position) drives allocation before anything is read"),
-    ("C11", "fi/bytes/corrupt{w}/ubsan@count", dict(w=W2), "C11-fi-reader", "num_items = 0 in a non-empty image: memcpy with a null destination"),
+    ("C11", "fi/bytes/corrupt{w}/ubsan@count", dict(w=W2), "C11-fi-reader", "num_items = 0 in a non-empty image: memcpy with a null destination", "993b0e0"),
     ("C11", "varopt/{p}/corrupt-word/asan@h_r", dict(p=P2), "C11-varopt-reader", "h + r == k checked in 32 bits: (h+5, r-5) passes, h weights overflow the k+1 array (heap WRITE)"),
     ("C11", "varopt/stream/corrupt{w}/{o}@{fld}", dict(w=W2, o=["alloc_cap", "timeout"], fld=["n", "h_r", "total_wt_r", "weights"]), "C11-serde-string-stream",
      "string serde (stream): unchecked length drives reserve and an unbounded push_back loop"),
@@ -761,12 +761,17 @@ FINDING_RULES = [
 def expand_rules():
     import itertools
     out = []
-    for prop, tmpl, ph, fix, what in FINDING_RULES:
+    for rule in FINDING_RULES:
+        prop, tmpl, ph, fix, what = rule[:5]
+        commit = rule[5] if len(rule) > 5 else None
         names = list(ph)
         for combo in itertools.product(*[ph[n] for n in names]):
             key = tmpl.format(**dict(zip(names, combo)))
-            out.append(dict(property=prop.format(**dict(zip(names, combo))), key=key, status="open", group="count",
-                            what="%s [proposed_fixes/%s]" % (what, fix.replace(" + ", ", proposed_fixes/"))))
+            e = dict(property=prop.format(**dict(zip(names, combo))), key=key, status="fixed" if commit else "open", group="count",
+                     what="%s [proposed_fixes/%s]" % (what, fix.replace(" + ", ", proposed_fixes/")))
+            if commit:
+                e["commit"] = commit       # fix: commit in /repo that repaired it (found on the pinned tree 7431040)
+            out.append(e)
     return out
 
 
